@@ -8,7 +8,7 @@ use super::{ScanResult, StructureScanConfig};
 use crate::checker::{DirStats, StructureViolation};
 use crate::error::Result;
 use crate::output::path::normalize_for_matching;
-use crate::state::is_own_state_entry;
+use crate::state::{is_git_state_dir, is_own_state_entry};
 
 pub struct DirectoryScanner<F: FileFilter> {
     filter: F,
@@ -88,7 +88,10 @@ impl<F: FileFilter> DirectoryScanner<F> {
         // Use filter_entry to skip excluded directories entirely (prunes subtree)
         let walker = WalkDir::new(root).into_iter().filter_entry(|e| {
             // The tool's own state files are not entries of the project
-            if e.depth() > 0 && is_own_state_entry(e.file_name(), e.file_type().is_dir()) {
+            if e.depth() > 0
+                && (is_own_state_entry(e.file_name(), e.file_type().is_dir())
+                    || (e.file_type().is_dir() && is_git_state_dir(e.path())))
+            {
                 return false;
             }
             if e.file_type().is_dir()
@@ -139,7 +142,10 @@ impl<F: FileFilter> DirectoryScanner<F> {
             .filter_entry(move |e| {
                 // The tool's own state files are not entries of the project
                 let is_dir = e.file_type().is_some_and(|ft| ft.is_dir());
-                if e.depth() > 0 && is_own_state_entry(e.file_name(), is_dir) {
+                if e.depth() > 0
+                    && (is_own_state_entry(e.file_name(), is_dir)
+                        || (is_dir && is_git_state_dir(e.path())))
+                {
                     return false;
                 }
                 // Skip excluded directories entirely (prunes subtree)
